@@ -97,11 +97,30 @@ func ValidatePathForArea(p b6.PhysicalFeature) error {
 	if p.GeometryLen() < 3 {
 		return fmt.Errorf("%s: %d points, expected 3 or more", p.FeatureID(), p.GeometryLen())
 	}
-	if p.PointAt(0) != p.PointAt(p.GeometryLen()-1) {
+	// If the path begins and ends with references to points, compare those,
+	// rather than their locations, since the path may itself be invalid
+	// because one of them is missing, in which case they can't be looked up.
+	first, last := p.Reference(0).Source(), p.Reference(p.GeometryLen()-1).Source()
+	if first.IsValid() && last.IsValid() {
+		if first != last {
+			return fmt.Errorf("%s: not closed", p.FeatureID())
+		}
+	} else if closed, err := endsMeet(p); err != nil {
+		return err
+	} else if !closed {
 		return fmt.Errorf("%s: not closed", p.FeatureID())
 	}
 	// ValidatePath will have already ensured that closed paths are clockwise
 	return nil
+}
+
+func endsMeet(p b6.PhysicalFeature) (closed bool, err error) {
+	defer func() {
+		if r := recover(); r != nil {
+			err = fmt.Errorf("%s: %v", p.FeatureID(), r)
+		}
+	}()
+	return p.PointAt(0) == p.PointAt(p.GeometryLen()-1), nil
 }
 
 func ValidateArea(a *AreaFeature, features b6.FeaturesByID) error {
